@@ -260,7 +260,7 @@ func (c *Case) besideFile() (string, string) {
 var extraKinds = []string{"", "", "", "opt", "plus", "star", "list", "listopt"}
 
 var paramKinds = []string{"exact", "any", "iface", "assignable", "neg-othernamed", "neg-pointer", "neg-iface"}
-var structKinds = []string{"ok", "ok", "ok", "shared", "neg-missing", "neg-arity", "neg-ambiguous", "neg-returns", "neg-orphan", "neg-results0", "neg-results2"}
+var structKinds = []string{"ok", "ok", "ok", "shared", "shared-mixed", "neg-missing", "neg-arity", "neg-ambiguous", "neg-returns", "neg-orphan", "neg-results0", "neg-results2"}
 
 type rendered struct {
 	lox, gofile string
@@ -335,6 +335,16 @@ func (c *Case) render() (*rendered, bool) {
 	if c.Struct == "shared" || c.Struct == "neg-returns" {
 		lox.WriteString("  | B " + term + " A\n")
 	}
+	if c.Struct == "shared-mixed" {
+		// one method for two productions whose middle terms have DIFFERENT Go types (only an
+		// interface-typed parameter can take both)
+		if p != "any" {
+			return nil, false
+		}
+		lox.WriteString("  | B y A\n")
+		r.sentences = append(r.sentences, []int{tB, tC, tA})
+		r.expectN = append(r.expectN, 77)
+	}
 	if extraTerm != "" {
 		lox.WriteString("  | SEP e\n")
 		if !c.ExtraBefore {
@@ -349,6 +359,9 @@ func (c *Case) render() (*rendered, bool) {
 	xLine := strings.Count(lox.String(), "\n") + 1
 	if c.Skel != "tokstar" {
 		lox.WriteString("x = C\n")
+	}
+	if c.Struct == "shared-mixed" {
+		lox.WriteString("y = C\n")
 	}
 	r.lox = lox.String()
 
@@ -507,6 +520,9 @@ func Run(toks []int, n int) (r Result) {
 		fmt.Fprintf(&g, "\nfunc (p *prs) %s(a Token, v %s, b Token) %s {\n%s}\n", name, ptype, rtype, body(ret))
 	}
 	switch c.Struct {
+	case "shared-mixed":
+		g.WriteString("\nfunc (p *prs) on_y(c Token) string { return \"yv\" }\n")
+		fmt.Fprintf(&g, "\nfunc (p *prs) on_s(a Token, v any, b Token) int {\n\tif p.n == 77 {\n\t\tp.check(\"parameter for y in the shared method\", v, any(\"yv\"))\n\t\treturn 1\n\t}\n%s}\n", body("1"))
 	case "ok", "shared":
 		writeS(sMethod, p, "int", "1")
 	case "neg-missing":
@@ -824,7 +840,7 @@ const knownStarF = "C06-starf-without-discard"
 func TestC06(t *testing.T) {
 	run := ev.Start("C06")
 	defer run.Finish(t)
-	run.Rule = "grammar skeletons (sequence, x?, x+, x*, @list, @list?, x*!, an @error alternative, C* over tokens) x a type universe for the rule's result (int, string, pointer, named struct, unnamed and named slice, map, func, chan, interface, any, generic instance, imported time.Duration / *bytes.Buffer / *strings.Builder, a type imported from a package whose NAME equals the parser package's name (with and without a local type of the same name), aliases (local, of an imported type, re-exporting a type of another package's internal package, re-exporting an unexported type), array, unnamed struct, Token) x how the receiving parameter is typed (identical, any, implemented interface, assignable-but-not-identical named type or <-chan; negative: other named type with equal underlying type, value vs pointer, unimplemented interface) x an optional second use of the same element rule under another sugar (x?, x+, x*, @list, @list?) in a rule declared before or after the start rule (helper rules are shared by name) x an optional further Go file beside the package's own (external or in-package test file, build-ignored package main, sorting before or after the other files) x structural layout (one method, method shared by two productions; negative: missing method, wrong arity, two matching methods, differing return types, orphan method, 0 or 2 results); the legality of every case is known by construction (no call to go/types); " +
+	run.Rule = "grammar skeletons (sequence, x?, x+, x*, @list, @list?, x*!, an @error alternative, C* over tokens) x a type universe for the rule's result (int, string, pointer, named struct, unnamed and named slice, map, func, chan, interface, any, generic instance, imported time.Duration / *bytes.Buffer / *strings.Builder, a type imported from a package whose NAME equals the parser package's name (with and without a local type of the same name), aliases (local, of an imported type, re-exporting a type of another package's internal package, re-exporting an unexported type), array, unnamed struct, Token) x how the receiving parameter is typed (identical, any, implemented interface, assignable-but-not-identical named type or <-chan; negative: other named type with equal underlying type, value vs pointer, unimplemented interface) x an optional second use of the same element rule under another sugar (x?, x+, x*, @list, @list?) in a rule declared before or after the start rule (helper rules are shared by name) x an optional further Go file beside the package's own (external or in-package test file, build-ignored package main, sorting before or after the other files) x structural layout (one method, method shared by two productions, method shared by two productions whose terms have different Go types; negative: missing method, wrong arity, two matching methods, differing return types, orphan method, 0 or 2 results); the legality of every case is known by construction (no call to go/types); " +
 		"oracle: (1) lox succeeds exactly on the legal cases and a failure's diagnostic names the production's line or the method; (2) on success the package compiles with the generated files (real go list + go build); (3) at run time every action parameter equals the value the producing action returned (reflect.DeepEqual; identity for pointers, channels, funcs; zero value for an absent x?), for 2-3 sentences per skeleton; " +
 		"non-trivial = negative case or parameter type not identical to the term's type; distinct by (skeleton, type, parameter kind, layout)"
 	run.Assumptions = []string{"Go assignability as in the language specification", "for interface-typed parameters an absent optional may arrive as untyped nil or as the boxed zero value"}
